@@ -18,6 +18,9 @@ enum Alg {
 #[derive(Clone)]
 pub struct Mon {
     pub max_sends: usize,
+    /// narrow alphabet (many requests in flight): Send, Timer, AdvanceTo, and per awaiting request one acceptable and
+    /// one wrongly keyed reply
+    pub narrow: bool,
     agreed: Option<Alg>,
     /// per request: a response with wrong / absent integrity was received (unreliable transport)
     violated: Vec<bool>,
@@ -34,7 +37,12 @@ impl Mon {
             Mech::ShortTerm(Some(false)) => Some(Alg::Mi),
             _ => None,
         };
-        Mon { max_sends, agreed, violated: vec![], open_reason: vec![], finals_before: vec![], last_delivery: None }
+        Mon { max_sends, narrow: false, agreed, violated: vec![], open_reason: vec![], finals_before: vec![], last_delivery: None }
+    }
+    pub fn narrow(max_sends: usize, cfg: &Cfg) -> Mon {
+        let mut m = Mon::new(max_sends, cfg);
+        m.narrow = true;
+        m
     }
 }
 
@@ -177,7 +185,7 @@ impl Monitor for Mon {
             let pv_now = st.obs.events.iter().any(|e| matches!(e, OEv::Failed(_, Reason::ProtectionViolated)));
             let cls = format!("{}-{}", mac_name(reply.mac), match reply.class {
                 RClass::Success => "success",
-                RClass::Error(_) => "error",
+                RClass::Error(_) | RClass::ErrorNoCode => "error",
                 RClass::Indication => "indication",
                 RClass::Request => "request",
             });
@@ -257,6 +265,23 @@ impl Monitor for Mon {
         if w.reqs.len() < self.max_sends {
             v.push(Event::Send { app: 0 });
         }
+        if self.narrow {
+            if !w.awaiting().is_empty() {
+                v.push(Event::Timer);
+                if !w.just_advanced {
+                    for t in explore::time_reps(w, TimeDetail::Coarse) {
+                        v.push(Event::AdvanceTo(t));
+                    }
+                }
+            }
+            let good = if self.agreed == Some(Alg::Sha) { RMac::Sha } else { RMac::Mi };
+            for i in w.awaiting() {
+                for m in [good, RMac::MiOtherPass] {
+                    v.push(Event::Deliver { to: Target::Req(i), reply: Reply::plain(RClass::Success).with_mac(m) });
+                }
+            }
+            return v;
+        }
         if w.inds.len() < 1 {
             v.push(Event::Indicate { app: 0 });
         }
@@ -326,6 +351,25 @@ pub fn run(ctx: &RunCtx) -> i32 {
         r.sym("three-requests");
         shared.merge(r);
     }
+    // four requests in flight over a narrow alphabet (one acceptable and one wrongly keyed reply per request), deeper:
+    // several requests carry a violated marker at once and end in every order
+    {
+        let mut r = Report::new();
+        for (t, m) in [(Transport::Unreliable { rto_ms: 100, gran_ms: 1, rm: 2, rc: 1 }, Mech::ShortTerm(None)), (Transport::Unreliable { rto_ms: 100, gran_ms: 1, rm: 2, rc: 2 }, Mech::ShortTerm(Some(true)))] {
+            let cfg = Cfg { transport: t, mech: m, fingerprint: false, max_tx: 10 };
+            let st = bfs(&cfg, &apps, &Mon::narrow(4, &cfg), if thorough { 13 } else { 11 }, if thorough { 8_000_000 } else { 2_000_000 }, &mut r);
+            r.states += st.states;
+            r.transitions += st.transitions;
+            let d = r.extra.get("max_four_requests_depth_completed").and_then(|v| v.as_u64()).unwrap_or(0).max(st.depth_completed as u64);
+            r.extra.insert("max_four_requests_depth_completed".into(), json!(d));
+            if st.capped {
+                r.capped = Some("four-requests job reached its state cap".into());
+            }
+            r.add_extra("four_requests_states", st.states as u64);
+        }
+        r.sym("four-requests-narrow");
+        shared.merge(r);
+    }
     // run-to-completion with deviations on the default timing
     {
         let mut r = Report::new();
@@ -344,9 +388,9 @@ pub fn run(ctx: &RunCtx) -> i32 {
         rep,
         Finish {
             level: "model_checking",
-            rule: format!("breadth-first exploration of the real client to depth {} for 2 transports x algorithm {{to be learned, MI, SHA256}} over {{Send (<=2), Indicate, Timer, AdvanceTo(next point, +1 ms, beyond), Deliver(each awaiting request x {{valid MI, valid SHA256, both, none, corrupted MI, corrupted SHA256, MI / SHA256 under another password}} as success (and 4 of them as error response), Deliver(indication x the 8 kinds), exact duplicate of the last buffer}}; replies are built by the reference codec with independent HMACs; plus the same alphabet with three requests in flight (one level shallower) and deviation-bounded runs on the default timing. Monitor: agreed := configured, else learned at the first delivered response; acceptable responses are delivered, everything else is not; wrong / absent integrity => ProtectionViolated at once on reliable transport, ignored (Err, no events) on unreliable transport and ProtectionViolated instead of TimedOut at the end unless an acceptable response arrived; both-MACs and other-algorithm replies only need to be rejected; every request and indication sent carries USERNAME and integrity attributes that verify under the password (the agreed kind once agreed)", depth),
+            rule: format!("breadth-first exploration of the real client to depth {} for 2 transports x algorithm {{to be learned, MI, SHA256}} over {{Send (<=2), Indicate, Timer, AdvanceTo(next point, +1 ms, beyond), Deliver(each awaiting request x {{valid MI, valid SHA256, both, none, corrupted MI, corrupted SHA256, MI / SHA256 under another password}} as success (and 4 of them as error response), Deliver(indication x the 8 kinds), exact duplicate of the last buffer}}; replies are built by the reference codec with independent HMACs; plus the same alphabet with three requests in flight (one level shallower), four requests in flight over a narrow alphabet (Send, Timer, AdvanceTo, one acceptable and one wrongly keyed reply per awaiting request) four levels deeper, and deviation-bounded runs on the default timing. Monitor: agreed := configured, else learned at the first delivered response; acceptable responses are delivered, everything else is not; wrong / absent integrity => ProtectionViolated at once on reliable transport, ignored (Err, no events) on unreliable transport and ProtectionViolated instead of TimedOut at the end unless an acceptable response arrived; both-MACs and other-algorithm replies only need to be rejected; every request and indication sent carries USERNAME and integrity attributes that verify under the password (the agreed kind once agreed)", depth),
             assumptions: vec!["single user / password pair".into(), "indications carrying both MACs are not judged (the statement speaks of responses)".into()],
-            required_symbols: vec!["bfs-configs", "delivered-authenticated", "ignored-unauthenticated", "protection-violated-on-reliable", "rejected-both-or-other-algorithm", "protection-violated-at-timeout", "plain-timeout", "outgoing-packet-authenticated", "deviation-runs", "Redeliver", "three-requests"],
+            required_symbols: vec!["bfs-configs", "delivered-authenticated", "ignored-unauthenticated", "protection-violated-on-reliable", "rejected-both-or-other-algorithm", "protection-violated-at-timeout", "plain-timeout", "outgoing-packet-authenticated", "deviation-runs", "Redeliver", "three-requests", "four-requests-narrow"],
             min_outcomes: 8,
             exhaustive: true,
             bounds: json!({"depth": depth}),
